@@ -129,7 +129,7 @@ def routing_problems(case, out):
                 and not pg.piece_special(piece)
                 and dest in (None, "Contaminant")
                 and name_derived(psc[0][0], hap_tags)
-                and {str(b).lower() for b in bad} == {NAME_KEY(psc[0][0])}
+                and {str(b).lower() for b in bad} == {name_key(psc[0][0])}
             )
             if not known and short_prefixed(psc[0][0], hap_tags) and isinstance(dest, tuple) and not info["painted"] and not info["hap"] and set(bad) == {None}:
                 known = "haplotype-prefix-name-shape"
@@ -141,7 +141,7 @@ def routing_problems(case, out):
         keys = where_of(in_toks[name])
         bad = {key: n for key, n in keys.items() if not key_matches(key, dest)}
         if bad:
-            known = name_derived(first_contig[name], hap_tags) and {str(b).lower() for b in bad} == {NAME_KEY(first_contig[name])} and dest is None
+            known = name_derived(first_contig[name], hap_tags) and {str(b).lower() for b in bad} == {name_key(first_contig[name])} and dest is None
             if not known and short_prefixed(first_contig[name], hap_tags) and isinstance(dest, tuple) and set(bad) == {None}:
                 known = "haplotype-prefix-name-shape"
             problems.append((f"input scaffold {name!r} is absent from the map and belongs in {show(dest)} but {bad} bases were written elsewhere", known))
@@ -159,7 +159,7 @@ def short_prefixed(name, hap_tags):
     return hap_by_name(name, hap_tags) is not None and not pg.NAME_DERIVED_HAPLOTYPE.match(name)
 
 
-def NAME_KEY(name):
+def name_key(name):
     m = pg.NAME_DERIVED_HAPLOTYPE.match(name)
     return m.group(1).lower() if m else None
 
@@ -319,6 +319,20 @@ def make_case(rng, idx, short_names=True):
     return {"input": inp, "map": mp, "prefix": rng.choice(("SUPER_", "SUPER_", "chr")), "via": pg.pick_via(inp, idx), "mode": mode}
 
 
+# hand-made minimal case that is always run: HAP1_3 begins with "<haplotype>_" but is written to the primary assembly
+FIXED_CASES = [
+    {
+        "input": [
+            {"name": "HAP1_SCAFFOLD_1", "rows": [pg.F("HAP1_SCAFFOLD_1", 1, 40)]},
+            {"name": "HAP2_SCAFFOLD_2", "rows": [pg.F("HAP2_SCAFFOLD_2", 1, 40)]},
+            {"name": "HAP1_3", "rows": [pg.F("HAP1_3", 1, 30)]},
+        ],
+        "map": {"bpt": 1.0, "scaffolds": [[["HAP1_SCAFFOLD_1", 1, 40, 1, ["Painted", "Hap1"]]], [["HAP2_SCAFFOLD_2", 1, 40, 1, ["Painted", "Hap2"]]], [["HAP1_3", 1, 30, 1, []]]]},
+        "prefix": "SUPER_", "via": "agp", "mode": "two",
+    }
+]
+
+
 def run(tier, seed, **opts):
     rng = random.Random(seed)
     col = Collector(
@@ -331,13 +345,13 @@ def run(tier, seed, **opts):
         "names of the known class; oracle: destination of every piece interior and of every absent scaffold, base by "
         "base; non-trivial = distinct completed case with >= 1 judged piece/scaffold and at least one tag besides Painted"
     )
-    n_cases = 4000 if tier == "quick" else 150000
+    n_cases = 4000 if tier == "quick" else 120000
     stats = {"rejected_tagging": 0, "judged": 0, "single": 0, "one": 0, "two": 0}
     known_failures = {}
-    for i in range(n_cases):
+    for i in range(-len(FIXED_CASES), n_cases):
         if col.full:
             break
-        case = make_case(rng, i)
+        case = FIXED_CASES[i] if i < 0 else make_case(rng, i)
         judged = check(case, col, known_failures)
         stats[case["mode"]] += 1
         if judged is None:
@@ -352,7 +366,7 @@ def run(tier, seed, **opts):
     return col.result(
         bounds=(
             "3-7 input scaffolds x <= 2 contigs, contig lengths {1,2,7,40,150,400}, texel sizes {1,2.5,10,33.3}, <= 2 cuts per "
-            f"scaffold, <= 4 painted scaffolds; {n_cases} seeded cases; pieces/absent scaffolds judged: {stats['judged']}; maps "
+            f"scaffold, <= 4 painted scaffolds; {len(FIXED_CASES)} fixed hand-made case + {n_cases} seeded cases; pieces/absent scaffolds judged: {stats['judged']}; maps "
             f"rejected with TaggingError/ChrNamerError (allowed, not judged): {stats['rejected_tagging']}; "
             f"modes: single={stats['single']} one-haplotype={stats['one']} two-haplotype={stats['two']}; cases failing only in a "
             f"named class: {stats['known_class_cases']} (first 3 of each reported)"
